@@ -126,6 +126,9 @@ def verify_function(world, reg, c, prop, timeout_ms=20000, mutate=None):
       for exc, cond in c.raises.items():
         it.oblige(f'{name}/raises-iff[{exc}]/normal-exit', z3.Not(it.spec(cond, env2, old)), 'raises-iff',
                   {'text': f'returns normally only if not ({cond})'})
+      for exc, cond in c.raises_unless.items():
+        it.oblige(f'{name}/raises-unless[{exc}]/normal-exit', it.spec(cond, env2, old), 'raises-unless',
+                  {'text': f'returns normally only if {cond}'})
       for k, e in enumerate(c.ensures):
         it.oblige(f'{name}/ensures#{k}', it.spec(e, env2, old), 'postcondition', {'text': e})
     else:
@@ -136,7 +139,7 @@ def verify_function(world, reg, c, prop, timeout_ms=20000, mutate=None):
           allowed = True
           it.oblige(f'{name}/raises-iff[{exc}]/exceptional-exit', it.spec(cond, env2, old), 'raises-iff',
                     {'text': f'raises {exc} only if {cond}'})
-      for exc in c.may_raise:
+      for exc in list(c.may_raise) + list(c.raises_unless):
         if exc_isinstance(val.cls, exc):
           allowed = True
       for exc, posts in c.raises_ensures.items():
